@@ -273,41 +273,63 @@ def run_generator(ctx, tap, gname):
                                       rdm_descriptor=meta['rdesc'], **kw_sizes)
     sig['k'] = f'{"1" if k_r == 1 else "k"}x{"1" if k_p == 1 else "k"}'
     wit = lambda **k: dict(wit0, k_rdm=k_r, k_pattern=k_p, random=random, **k)  # noqa: E731
-    ok, out = ctx.guarded(gname, sig, call, data=wit)
-    ev = tap.take()
-    ctx.count('shuffles_observed', sum(1 for e in ev if e['fn'] == 'shuffle'))
-    if not ok:
+    def one_pass():
+        ok, out = ctx.guarded(gname, sig, call, data=wit)
+        ev = tap.take()
+        ctx.count('shuffles_observed', sum(1 for e in ev if e['fn'] == 'shuffle'))
+        if not ok:
+            return False
+        train_set, test_set, ceil_set = out
+        ctx.case(gname, sig, sample={'generator': gname, 'k_rdm': k_r, 'k_pattern': k_p, 'n_folds': len(test_set),
+                                     'rdm_groups': list(map(str, wit0['rdm_groups'])),
+                                     'pattern_groups': list(map(str, wit0['pattern_groups']))})
+        if len(train_set) != len(test_set) or (ceil_set is not None and len(ceil_set) != len(test_set)):
+            ctx.fail(gname, dict(sig, what='lengths'), 'train/test/ceil lists differ in length', wit())
+            return False
+        if exhaustive and len(test_set) != k_r * k_p:
+            ctx.fail(gname, dict(sig, what='number_of_folds'), f'{len(test_set)} folds for k_rdm={k_r}, '
+                     f'k_pattern={k_p}', wit())
+            return False
+        for i in range(len(test_set)):
+            ceil = None if ceil_set is None else ceil_set[i]
+            if gname == 'sets_leave_one_out_pattern':
+                ceil = None  # ceil is the test patterns of all RDMs (no RDM split): covered by content check below
+                c = ceil_set[i][0]
+                if sorted(uids_of(c, 'pattern')) != sorted(uids_of(test_set[i][0], 'pattern')) or \
+                        sorted(uids_of(c, 'rdm')) != sorted(uids_of(train_set[i][0], 'rdm')):
+                    ctx.fail(gname, dict(sig, what='ceil_conditions'), 'ceil set is not the training RDMs at the test '
+                             'conditions', wit(fold=i))
+                    return False
+            if not check_fold(ctx, gname, sig, obj, meta, train_set[i], test_set[i], ceil, k_r > 1, k_p > 1,
+                              lambda **k: wit(fold=i, **k)):
+                return False
+        if exhaustive:
+            check_exhaustive(ctx, gname, sig, obj, meta, test_set, k_r, k_p, wit)
+        # every shuffle outcome is a permutation of the groups it shuffled
+        for e in ev:
+            if e['fn'] == 'shuffle' and sorted(map(str, e['before'])) != sorted(map(str, e['after'])):
+                ctx.fail(gname, dict(sig, what='shuffle'), 'shuffle did not permute', wit())
+        return True
+    if not one_pass():
         return
-    train_set, test_set, ceil_set = out
-    ctx.case(gname, sig, sample={'generator': gname, 'k_rdm': k_r, 'k_pattern': k_p, 'n_folds': len(test_set),
-                                 'rdm_groups': list(map(str, wit0['rdm_groups'])),
-                                 'pattern_groups': list(map(str, wit0['pattern_groups']))})
-    if len(train_set) != len(test_set) or (ceil_set is not None and len(ceil_set) != len(test_set)):
-        ctx.fail(gname, dict(sig, what='lengths'), 'train/test/ceil lists differ in length', wit())
-        return
-    if exhaustive and len(test_set) != k_r * k_p:
-        ctx.fail(gname, dict(sig, what='number_of_folds'), f'{len(test_set)} folds for k_rdm={k_r}, '
-                 f'k_pattern={k_p}', wit())
-        return
-    for i in range(len(test_set)):
-        ceil = None if ceil_set is None else ceil_set[i]
-        if gname == 'sets_leave_one_out_pattern':
-            ceil = None  # ceil is the test patterns of all RDMs (no RDM split): covered by content check below
-            c = ceil_set[i][0]
-            if sorted(uids_of(c, 'pattern')) != sorted(uids_of(test_set[i][0], 'pattern')) or \
-                    sorted(uids_of(c, 'rdm')) != sorted(uids_of(train_set[i][0], 'rdm')):
-                ctx.fail(gname, dict(sig, what='ceil_conditions'), 'ceil set is not the training RDMs at the test '
-                         'conditions', wit(fold=i))
-                return
-        if not check_fold(ctx, gname, sig, obj, meta, train_set[i], test_set[i], ceil, k_r > 1, k_p > 1,
-                          lambda **k: wit(fold=i, **k)):
+    # the same object is used again after its conditions were reordered in place (and, for a named grouping, after a
+    # selection with the same values by ANOTHER descriptor): the folds are those of the object as it is now
+    if obj.n_cond >= 3 and rng.integers(2):
+        try:
+            alt = [ref._key(v) for v in obj.pattern_descriptors[meta['pdesc']]]
+            obj.pattern_descriptors['alt_grouping'] = alt[1:] + alt[:1]
+            vals = list(dict.fromkeys(alt))[:max(1, len(set(alt)) // 2)]
+            obj.subset_pattern('alt_grouping', vals)
+            del obj.pattern_descriptors['alt_grouping']
+            obj.reorder(np.array([int(i) for i in rng.permutation(obj.n_cond)]))
+        except Exception as exc:
+            ctx.fail(gname, dict(sig, what='raised', exception=type(exc).__name__), f'in-place reorder: {exc!r}', wit())
             return
-    if exhaustive:
-        check_exhaustive(ctx, gname, sig, obj, meta, test_set, k_r, k_p, wit)
-    # every shuffle outcome is a permutation of the groups it shuffled
-    for e in ev:
-        if e['fn'] == 'shuffle' and sorted(map(str, e['before'])) != sorted(map(str, e['after'])):
-            ctx.fail(gname, dict(sig, what='shuffle'), 'shuffle did not permute', wit())
+        wit0.update(pattern_groups=groups_of(obj, meta['ptruth'], 'pattern'), cond_uids=uids_of(obj, 'pattern'), second_use=True)
+        sig = dict(sig, second_use=True)
+        np.random.seed(int(rng.integers(2 ** 31)))
+        tap.take()
+        one_pass()
 
 
 # ---------------------------------------------------------------------------
